@@ -410,7 +410,7 @@ def parallel_tlc(jobs, maxpar=8):
         return [f.result() for f in futs]
 
 
-_MIS = re.compile(r'^<<"MISMATCH", (\d+), (".*")>>$')
+MIS_RE = re.compile(r'^<<"MISMATCH", (\d+), (".*")>>$')
 
 
 def validate_trace(run, module, cfg, events, chunk=20000, maxpar=8, env=None, timeout=3600, xmx="3g"):
@@ -440,7 +440,7 @@ def validate_trace(run, module, cfg, events, chunk=20000, maxpar=8, env=None, ti
         dist += r.distinct
         wall = max(wall, r.wall)
         for ln in r.lines:
-            m = _MIS.match(ln)
+            m = MIS_RE.match(ln)
             if m:
                 mism.append((off + int(m.group(1)) - 1, json.loads(json.loads(m.group(2)))))
     run.cov["states"] += dist
